@@ -42,6 +42,7 @@ type FuncSpec struct {
 	Trusted  bool
 	NoInline bool
 	Inline   bool
+	Faults   []string // K1 kinds that are specified fault behaviour (run-time panics converted by a caller)
 	Asserts  []*AnchorClause
 	Sites    []*AnchorClause
 	Frames   []*Clause // frame clauses: "preserves <family-pattern>"
@@ -305,6 +306,8 @@ func (S *Specs) parseClause(file string, line int, cur *FuncSpec, word, rest str
 		if c := mk(rest); c != nil {
 			cur.Ensures = append(cur.Ensures, c)
 		}
+	case "faults":
+		cur.Faults = append(cur.Faults, strings.Fields(rest)...)
 	case "maypanic":
 		cur.MayPanic = rest
 	case "recovers":
